@@ -304,6 +304,26 @@ def getter_real(name):
     return pure_contract(name, result=lambda ex, st, V: fresh('real', name))
 
 
+def n_eff_of(V):
+    """n_eff is a deterministic function of the three per-shell arrays it
+    reads (its body is verified in C02)"""
+    from pyvc.lib import tuple_fn
+    return tuple_fn(V.st, 'n_eff', [S(V, 'shell_n_eff'), S(V, 'shell_log_l'),
+                                    S(V, 'shell_log_v')])
+
+
+def n_eff_contract():
+    return pure_contract('n_eff', result=lambda ex, st, V: Sym(n_eff_of(V),
+                                                              'real'))
+
+
+def success_of(V, n_shell, n_eff):
+    sn = S(V, 'shell_n')
+    mask = Arr(sn.n, lambda i: sn.at(i) >= n_shell, 'bool')
+    return z3.And(V.bool('self.explored'), A.count(V.st, mask) == sn.n,
+                  n_eff_of(V) >= n_eff)
+
+
 def f_live_contract():
     def result(ex, st, V):
         # None once explored, a real number before
@@ -638,12 +658,70 @@ def run_contract(G):
     def result(ex, st, V):
         return fresh('bool', 'success')
 
+    def params(V):
+        from pyvc.arrays import zv
+        return (I(V.raw('n_shell')), zv(V.raw('n_eff'), 'real'),
+                zv(V.raw('n_like_max'), 'real'))
+
     def post(Vo, Vn, res):
         out = M.InvRun(Vn)
+        n_shell, n_eff, n_max = params(Vo)
+        nl_o, nl_n = Vo.int('self.n_like'), Vn.int('self.n_like')
+        nbt = Vo.int('self.n_batch')
+        out.append(('N_budget', z3.And(
+            z3.Implies(z3.ToReal(nl_o) < n_max,
+                       z3.ToReal(nl_n) < n_max + z3.ToReal(nbt)),
+            z3.Implies(z3.ToReal(nl_o) >= n_max, nl_n == nl_o),
+            nl_n >= nl_o)))
+        out.append(('N_return_value', B(res) == success_of(Vn, n_shell,
+                                                           n_eff)))
+        out.append(('X_explored_monotone', z3.Implies(
+            Vo.bool('self.explored'), Vn.bool('self.explored'))))
         return out
 
     def inv0(V):
-        return M.InvRun(V) + [('has_first_bound', S(V, 'bounds').n >= 1)]
+        Vo = View(V.ex, c.entry_state)
+        n_shell, n_eff, n_max = params(Vo)
+        nl_o, nl = Vo.int('self.n_like'), V.int('self.n_like')
+        nbt = V.int('self.n_batch')
+        return M.InvRun(V) + [
+            ('has_first_bound', S(V, 'bounds').n >= 1),
+            ('N_budget', z3.And(nl >= nl_o, z3.Or(
+                nl == nl_o, z3.ToReal(nl) < n_max + z3.ToReal(nbt)),
+                z3.Implies(z3.ToReal(nl_o) >= n_max, nl == nl_o))),
+            ('N_success_is_predicate_of_state',
+             V.bool('success') == success_of(V, n_shell, n_eff)),
+            ('X_explored_monotone', z3.Implies(Vo.bool('self.explored'),
+                                               V.bool('self.explored')))]
+
+    def step0(Vs, Ve):
+        """one iteration of the run loop"""
+        Vo = View(Vs.ex, c.entry_state)
+        n_shell, n_eff, n_max = params(Vo)
+        out = [('N_one_batch_per_iteration', Ve.int('self.n_like') ==
+                Vs.int('self.n_like') + Vs.int('self.n_batch')),
+               ('N_guard_held', z3.ToReal(Vs.int('self.n_like')) < n_max)]
+        ex_s = Vs.bool('self.explored')
+        bo, bn = S(Vs, 'bounds'), S(Ve, 'bounds')
+        po, pn = S(Vs, 'points'), S(Ve, 'points')
+        lo_, ln_ = S(Vs, 'log_l'), S(Ve, 'log_l')
+        i, j = A.qi('i'), A.qi('j')
+        out.append(('X_no_return_to_exploration', z3.Implies(
+            ex_s, Ve.bool('self.explored'))))
+        out.append(('X_bounds_frozen', z3.Implies(ex_s, z3.And(
+            bn.n == bo.n, A.forall_idx(bo.n, lambda t: bn.at(t) == bo.at(t))))))
+        out.append(('X_append_only', z3.Implies(ex_s, z3.And(
+            z3.ForAll([i], z3.Implies(z3.And(i >= 0, i < bo.n),
+                                      pn.alen(i) >= po.alen(i))),
+            z3.ForAll([i, j], z3.Implies(
+                z3.And(i >= 0, i < bo.n, j >= 0, j < po.alen(i)),
+                z3.And(pn.at(i, j) == po.at(i, j),
+                       ln_.at(i, j) == lo_.at(i, j))))))))
+        out.append(('X_exploration_snapshot_frozen', z3.Implies(ex_s, z3.And(
+            A.arr_eq(S(Ve, 'shell_end_exp'), S(Vs, 'shell_end_exp')),
+            A.arr_eq(S(Ve, 'shell_n_sample_exp'),
+                     S(Vs, 'shell_n_sample_exp'))))))
+        return out
 
     def prepare1(ex, st):
         snap = st.copy()
@@ -688,7 +766,7 @@ def run_contract(G):
                     nb, lambda t: bl.alen(t) == pts.alen(t))))))
         return out
 
-    return FnContract(
+    c = FnContract(
         SQ + 'run', params=PARAMS,
         defaults=dict(f_live=0.01, n_shell=1, n_eff=10000, n_like_max=None,
                       discard_exploration=False, timeout=None, verbose=False),
@@ -698,8 +776,9 @@ def run_contract(G):
                     'explored', '_discard_exploration', 'shell_n_sample_exp',
                     'shell_end_exp', 'n_update_iter', 'n_like_iter'] +
         SHELL_ARRAYS, mod_ghost=['rng', 'sstate', 'clock'],
-        loops={0: LoopSpec(inv=inv0, extra_mods=[
+        loops={0: LoopSpec(inv=inv0, step=step0, extra_mods=[
             ('self', '_discard_exploration'), ('self', 'shell_n'),
             ('self', 'shell_log_v'), ('self', 'shell_log_l'),
             ('self', 'shell_n_eff'), '$clock']),
             1: LoopSpec(inv=inv1, prepare=prepare1)})
+    return c
